@@ -25,6 +25,7 @@ type StringVal struct {
 	Atom  *Term   // if non-nil: finite-domain symbolic string identified by an Int id (Bytes unused)
 	Cands []string // concrete members of the atom's domain
 	Others int     // number of anonymous members
+	Pre, Suf string // concrete decorations around an atom ("^" + atom + "$"): a two-segment rope
 }
 type MapVal struct{ Obj int } // 0 = nil map
 type MapEntry struct {
